@@ -44,6 +44,8 @@ type Solver struct {
 	timeoutMs int
 	log       io.Writer
 
+	seq     int
+	Desyncs int
 	// statistics
 	Queries   int
 	Sat       int
@@ -237,11 +239,23 @@ func (s *Solver) Check(extra *Term, wantModel bool) (SatResult, Model) {
 		s.define(extra, &sb)
 		fmt.Fprintf(&sb, "(push 1)\n(assert %s)\n", ref(extra))
 	}
-	sb.WriteString("(check-sat)\n")
+	s.seq++
+	marker := fmt.Sprintf("sync-%d", s.seq)
+	fmt.Fprintf(&sb, "(check-sat)\n(echo \"%s\")\n", marker)
 	t0 := time.Now()
 	s.send(sb.String())
 	s.Queries++
 	line, err := s.readLine()
+	if err == nil {
+		// the echo must follow immediately; anything else means the stream is out of step
+		l2, err2 := s.readLine()
+		if err2 != nil || !strings.Contains(l2, marker) {
+			fmt.Fprintf(os.Stderr, "solver stream out of step: got %q then %q (want %s)\n", line, l2, marker)
+			s.dead = true
+			line = "unknown"
+			s.Desyncs++
+		}
+	}
 	s.SolveTime += time.Since(t0)
 	res := ResUnknown
 	switch {
